@@ -72,7 +72,7 @@ func verifRawSuiteText() string {
 
 //verif:harness prop=C19 name=chain
 //verif:cases quick path=0..11 method=0,1,2 dt=0,2 at=0,3 raw=0,1,2,3 decode=0,1 maxskew=1
-//verif:cases thorough path=0..11 method=0,1,2 dt=0..5 at=0..4 raw=0,1,2,3 decode=0,1 maxskew=10
+//verif:cases thorough path=0..11 method=0,1,2 dt=0,2,3,5 at=0,1,3,4 raw=0,1,2,3 decode=0,1 maxskew=3
 //verif:replace github.com/ja7ad/otp.deriveRFC4226=verifStub_derive
 //verif:opt hmac=fresh unwind=600 unwind_is_violation=1 maxpaths=8000
 func verifH_C19_chain() {
